@@ -9,7 +9,7 @@ for id in "$@"; do
     n=$(( $(ls -d /verif/seeded/$id-* 2>/dev/null | wc -l) + 1 ))
     r=$(/verif/tools/confirm_seeded.sh $id $P-$id $i $n 2>&1 | tail -1)
     case "$r" in
-      CONFIRMED*) d=$(/verif/tools/run_seeded.sh $id-$n 2>&1 | grep -v '^KNOWN' | tail -1); echo "$id-$n: $d" ;;
+      CONFIRMED*) o=$(/verif/tools/run_seeded.sh $id-$n 2>&1 | grep -v '^KNOWN'); d=$(echo "$o" | tail -1); x=$(echo "$o" | grep -o 'exhaustive=[A-Za-z]* capped=[A-Za-z]* violations=[0-9]*' | tail -1); echo "$id-$n: $d $x" ;;
       *) echo "$id #$i: $r" ;;
     esac
   done
